@@ -447,6 +447,19 @@ def step (st : Insts) (line : String) : Insts × String :=
       | (s', .ok r) => (st, digest s' ++ " " ++ showResult r)
       | (s', e) => (st, digest s' ++ " " ++ e.tag)
     | _, _ => (st, "bad-op")
+  | "modelx" :: i :: variant :: op :: args =>
+    -- model + modelreq + domain in one round trip, separated by " | "
+    match (pNat i).bind (st[·]?), parseCall op args with
+    | some s, some c =>
+      let x := PyIpmi.Model.Api.opOfV (variant.contains 'l') (variant.contains 'p') c
+      let m := match x.run s with
+        | (s', .ok r) => digest s' ++ " " ++ showResult r
+        | (s', e) => digest s' ++ " " ++ e.tag
+      let q := match x.request with
+        | .ok r => s!"{r.netfn} {r.lun} {r.cmd} {toHex r.data}"
+        | e => e.tag
+      (st, m ++ " | " ++ q ++ " | " ++ sb (inRangeB c) ++ " " ++ sb (wfB s))
+    | _, _ => (st, "bad-op")
   | "domain" :: i :: op :: args =>
     match (pNat i).bind (st[·]?), parseCall op args with
     | some s, some c => (st, sb (inRangeB c) ++ " " ++ sb (wfB s))
